@@ -63,6 +63,16 @@ M = [
     ("C17", "disconnect decrements twice", "src/lib/bo.rs", "                        db.dec_connections();\n                        set_connection_counter(db, &dbs);", "                        db.dec_connections();\n                        db.dec_connections();\n                        set_connection_counter(db, &dbs);"),
     ("C17", "inc adds two", "src/lib/bo.rs", "*connections.get_mut() = *connections.get_mut() + 1;", "*connections.get_mut() = *connections.get_mut() + 2;"),
     ("C17", "$connections written with a stale text", "src/lib/db_ops.rs", "let value = db.connections_count().to_string();\n    return set_key_value(CONNECTIONS_KEY.to_string(), value, -1, db, &dbs);", "let value = db.connections_count().to_string();\n    return set_key_value(CONNECTIONS_KEY.to_string(), String::from(\"0\"), -1, db, &dbs);"),
+    # ---- C07
+    ("C07", "younger candidate makes the node yield", "src/lib/election_ops.rs", "} else if candidate_id > dbs.process_id {", "} else if candidate_id < dbs.process_id {"),
+    ("C07", "equal start times contest", "src/lib/election_ops.rs", "if candidate_id == dbs.process_id {", "if candidate_id == dbs.process_id && dbs.is_primary() {"),
+    ("C07", "yielding node stays StartingUp", "src/lib/election_ops.rs", "        dbs.node_state\n            .swap(ClusterRole::Secoundary as usize, Ordering::Relaxed);\n    }\n    Response::Ok {}", "    }\n    Response::Ok {}"),
+    ("C07", "ack wait never times out", "src/lib/election_ops.rs", "                if start_time > *NUN_ELECTION_TIMEOUT {\n                    log::info!(\"Election timeout, will claim as primary\");\n                    election_win(&dbs);\n                    return;\n                }\n", ""),
+    ("C07", "registration wait ignores the timeout", "src/lib/election_ops.rs", "while opp.is_none() && start_time < *NUN_ELECTION_TIMEOUT {", "while opp.is_none() {"),
+    ("C07", "winner stays StartingUp", "src/lib/election_ops.rs", "        .swap(ClusterRole::Primary as usize, Ordering::Relaxed);\n    Response::Ok {}", "        .swap(ClusterRole::StartingUp as usize, Ordering::Relaxed);\n    Response::Ok {}"),
+    ("C07", "candidacy carries the internal address", "src/lib/election_ops.rs", "        dbs.process_id, dbs.external_tcp_address\n    )) {", "        dbs.process_id, dbs.tcp_address\n    )) {"),
+    ("C07", "single node does not win", "src/lib/election_ops.rs", "    if dbs.count_cluster_members() <= 1 {", "    if dbs.count_cluster_members() < 1 {"),
+    ("C07", "eligible means not secondary", "src/lib/bo.rs", "return self.get_role() == ClusterRole::StartingUp;", "return self.get_role() != ClusterRole::Secoundary;"),
     # ---- C20
     ("C20", "leftover messages are not drained", "src/lib/network/http_ops.rs", "            while let Ok(Some(_)) = receiver.try_next() {}\n", ""),
     ("C20", "only refused commands are drained", "src/lib/network/http_ops.rs", "                    responses.push(msg.clone());\n                    log::debug!(\"Http response Error: {}\", msg);\n                }\n                Response::VersionError {", "                    responses.push(msg.clone());\n                    while let Ok(Some(_)) = receiver.try_next() {}\n                    log::debug!(\"Http response Error: {}\", msg);\n                }\n                Response::VersionError {", "            while let Ok(Some(_)) = receiver.try_next() {}\n        }\n    }\n", "        }\n    }\n"),
